@@ -45,7 +45,7 @@ def run(ctx, rep):
     rep.analysed(f)
     mc = [c for c in f.calls('memcmp') if 'BLOCK_HASH_SIZE' in f.expr(c.ops[2])]
     mh = list(f.calls('memhash'))
-    ok = len(mc) == 1 and len(mh) == 2
+    ok = len(mc) == 1 and len(mh) >= 1
     det = ''
     if ok:
         e = equal_edge_of(f, mc[0])
@@ -53,7 +53,9 @@ def run(ctx, rep):
         dead = dead_blocks(f)
         a = [f.expr(o) for o in mc[0].ops]
         okargs = {'&buffer_hash[0]', 'hash'} == set(a[:2])
-        okmh = all(f.expr(m.ops[2]) == '&buffer_hash[0]' and f.expr(m.ops[3]) == 'buffer' and f.expr(m.ops[4]) == 'read_size' for m in mh) and sorted(f.expr(m.ops[0]) for m in mh) == ['state->hash', 'state->prevhash']
+        from .C04 import _alternatives
+        kinds_ = sorted(v for m in mh for v in _alternatives(f, m.ops[0]).values())
+        okmh = all(f.expr(m.ops[2]) == '&buffer_hash[0]' and f.expr(m.ops[3]) == 'buffer' and f.expr(m.ops[4]) == 'read_size' for m in mh) and kinds_ == ['state->hash', 'state->prevhash']
         # pread fills `buffer` with read_size bytes before hashing
         pr = list(f.calls('pread'))
         okrd = len(pr) == 1 and f.expr(pr[0].ops[1]) == 'buffer' and f.expr(pr[0].ops[2]).startswith('read_size') and all(f.dominates(pr[0], m) for m in mh)
